@@ -4,12 +4,11 @@ use crate::kinematic_traits::{
     Joints, Kinematics, Solutions, ENV_START_IDX, J1, J5, J6, J_BASE, J_TOOL,
 };
 
-use nalgebra::Isometry3;
-use parry3d::shape::TriMesh;
+use nalgebra::{Isometry3, Translation3};
+use parry3d::shape::{Cuboid, TriMesh};
 use rayon::prelude::{IntoParallelRefIterator, ParallelIterator};
 use std::collections::{HashMap, HashSet};
-use parry3d::bounding_volume::{Aabb, BoundingVolume};
-use parry3d::math::Point;
+use parry3d::bounding_volume::BoundingVolume;
 
 /// Optional structure attached to the robot base joint. It has its own global transform
 /// that brings the robot to the location. This structure includes two transforms,
@@ -78,14 +77,17 @@ impl CollisionTask<'_> {
             } else {
                 (self.shape_j, self.transform_j, self.shape_i, self.transform_i)
             };            
-            // Small shape is simplified to aabb that is then enlarged. Large shape is used
-            // as is (it probably has a complex shape and would result in many false positives
-            // if similarly simplified            
-            let am_aaabb = sm_shape.local_aabb().loosened(r_min);
-            let sm_abb_mesh = build_trimesh_from_aabb(am_aaabb);
+            // Small shape is simplified to its bounding box that is then enlarged. Large shape is
+            // used as is (it probably has a complex shape and would result in many false positives
+            // if similarly simplified). The box must be a solid shape: a mesh of its surface is not
+            // touched by an object that lies entirely inside the box, and such an object would
+            // be taken for distant.
+            let sm_aabb = sm_shape.local_aabb().loosened(r_min);
+            let sm_box = Cuboid::new(sm_aabb.half_extents());
+            let sm_box_transform = sm_transform * Translation3::from(sm_aabb.center().coords);
             if !parry3d::query::intersection_test(
-                sm_transform,
-                &sm_abb_mesh,
+                &sm_box_transform,
+                &sm_box,
                 bg_transform,
                 bg_shape,
             ).expect(SUPPORTED) {
@@ -108,53 +110,6 @@ impl CollisionTask<'_> {
             None
         }
     }
-}
-
-/// Parry does not support AABB as a "proper" shape so we rewrap it as mesh
-fn build_trimesh_from_aabb(aabb: Aabb) -> TriMesh {
-    let min: Point<f32> = aabb.mins;
-    let max: Point<f32> = aabb.maxs;
-    // Define the 8 vertices of the AABB
-    let vertices = vec![
-        min, // 0
-        Point::new(max.x, min.y, min.z), // 1
-        Point::new(min.x, max.y, min.z), // 2
-        Point::new(max.x, max.y, min.z), // 3
-        Point::new(min.x, min.y, max.z), // 4
-        Point::new(max.x, min.y, max.z), // 5
-        Point::new(min.x, max.y, max.z), // 6
-        max, // 7
-    ];
-
-    // Define the 12 triangles (2 for each face)
-    const INDICES: [[u32; 3]; 12] = [
-        // Bottom face (min.z)
-        [0, 1, 2],
-        [2, 1, 3],
-
-        // Top face (max.z)
-        [4, 5, 6],
-        [6, 5, 7],
-
-        // Front face (max.y)
-        [2, 3, 6],
-        [6, 3, 7],
-
-        // Back face (min.y)
-        [0, 1, 4],
-        [4, 1, 5],
-
-        // Left face (min.x)
-        [0, 2, 4],
-        [4, 2, 6],
-
-        // Right face (max.x)
-        [1, 3, 5],
-        [5, 3, 7],
-    ];
-
-    // Return TriMesh
-    TriMesh::new(vertices, INDICES.to_vec()).expect("Failed to build TrimMesh from AABB")
 }
 
 /// Struct representing the geometry of a robot, which is composed of exactly 6 joints.
